@@ -74,6 +74,9 @@ def sig_of(res, syms):
     if not res or not res.get("viol"):
         return None
     s = {"class": res["cls"], "type": res.get("type"), "call": res.get("call"), "view": res.get("view"), "part": res.get("part", "")}
+    if res.get("cls") == "crash":
+        s["signal"] = res.get("sig")
+        s["align"] = res.get("align")
     st = res.get("store")
     if st:
         fn, loc = syms.funcs([st["pc"]])[0]
@@ -113,6 +116,8 @@ def describe(s):
         d += " (sub-part %s)" % s["part"]
     if s.get("store_fn"):
         d += "; offending store in %s landed in %s" % (s["store_fn"], s.get("landed_in"))
+    if s.get("signal"):
+        d += "; signal %s (buffer base offset %s scalars)" % (s["signal"], s.get("align"))
     return d
 
 
